@@ -127,6 +127,20 @@ type Layout struct {
 	Leaves       [][]int // partition of shard ids over leaf nodes
 	Intermediate bool    // route through one intermediate (broker) node
 	Delay        func() time.Duration // transit time of the next response (nil = none)
+	// StrangerDB: one more leaf node which answers from this (never written) database whatever database the
+	// request names: a node that has never seen the metric
+	StrangerDB string
+}
+
+// aliasEngine answers every database lookup with one fixed database.
+type aliasEngine struct {
+	tsdb.Engine
+	db string
+}
+
+func (e *aliasEngine) GetDatabase(string) (tsdb.Database, bool) { return e.Engine.GetDatabase(e.db) }
+func (e *aliasEngine) GetShard(_ string, id models.ShardID) (tsdb.Shard, bool) {
+	return e.Engine.GetShard(e.db, id)
 }
 
 type fakeTaskMgr struct {
@@ -200,7 +214,11 @@ func (n *Node) Query(db, sqlText string, lay Layout) (*commonmodels.ResultSet, e
 	var deliver func(p *pendingResp)
 	processors := map[string]query.TaskProcessor{}
 	var leafTargets []*models.Target
-	for i, shards := range lay.Leaves {
+	leaves := lay.Leaves
+	if lay.StrangerDB != "" {
+		leaves = append(append([][]int{}, leaves...), []int{0})
+	}
+	for i, shards := range leaves {
 		ln := &models.StatelessNode{HostIP: fmt.Sprintf("2.2.2.%d", i+1), GRPCPort: 9100}
 		fct := rpc.NewTaskServerFactory()
 		me := ln.Indicator()
@@ -214,7 +232,11 @@ func (n *Node) Query(db, sqlText string, lay Layout) (*commonmodels.ResultSet, e
 				return nil
 			}})
 		}
-		processors[me] = query.NewLeafTaskProcessor(ln, n.Engine, fct)
+		var eng tsdb.Engine = n.Engine
+		if lay.StrangerDB != "" && i == len(leaves)-1 {
+			eng = &aliasEngine{Engine: n.Engine, db: lay.StrangerDB}
+		}
+		processors[me] = query.NewLeafTaskProcessor(ln, eng, fct)
 		t := &models.Target{Indicator: me}
 		for _, s := range shards {
 			t.ShardIDs = append(t.ShardIDs, models.ShardID(s))
